@@ -320,7 +320,7 @@ MANIFEST_TEXT = {
  'C15': dict(
     text='Lean theorems: Marshal refuses exactly the attribute sets with an empty required field; JSON format: Unmarshal(Marshal a) = populate a for every attribute set with machine integers '
          'and a duplicate-free extension map (all omitempty combinations); a text that decodes as a JSON attribute object is decided by the JSON branch alone; no crash. '
-         'The legacy round trip is checked by the specification predicate on the implementation (theorem pending). Differential runs against message.Marshal/Unmarshal.',
+         'legacy format (c15_legacy_roundtrip, c15_legacy_roundtrip_clean): for all values free of white space and @ and machine-integer times, UnmarshalLegacy(MarshalLegacy a) returns version, user, host, hardware-key, touch-to-SSH and touchless-sudo fields, interface version 6 and the raw tokens as extension map. Differential runs against message.Marshal/Unmarshal.',
     design_ref='DESIGN.md §7 C15',
     note=_NOTE + 'JSON lexer as in C05; float formatting of extension values is not modelled.',
     technique='Lean 4 proof (round-trip) + model/implementation correspondence'),
